@@ -114,8 +114,7 @@ class Operator(abc.ABC):
                     part_ = self.prepare(part, inplace=inplace)
                     done[id(part)] = self._apply_partial(part_)
             partials[i] = {key: done[id(part)] for key, part in order.items()}
-        if any(partials):
-            sm.order1, sm.order2 = partials
+        sm.order1, sm.order2 = partials
         return sm
 
     def _apply_partial(self, sm):
